@@ -64,10 +64,14 @@ def run(prop, tier):
     with open(jp, 'w') as f:
         for j in jobs:
             f.write(json.dumps(j) + '\n')
-    hist = vlib.tlc(os.path.join(vlib.SPECS, 'hash'), 'Hasher', vlib.cfg({'Rate': 136, 'Class': 'sponge', 'MaxOps': 3, 'Lens': {0, 1, 135, 136, 137, 272, 273},
-                    'Record': True}, invariants=['Emit']), name='c20hash')
-    hjobs = [{'kind': 'history', 'case': {'id': 'h%d' % i, 'class': 'sponge', 'rate': 136, 'seed': seed + i, 'hist': c['hist']}}
-             for i, c in enumerate(tlc_cases(hist.out)) if any(h['op'] in ('SumHash', 'ComputeHash') for h in c['hist'])]
+    hjobs = []
+    for rate in (136, 104):
+        hist = vlib.tlc(os.path.join(vlib.SPECS, 'hash'), 'Hasher', vlib.cfg({'Rate': rate, 'Class': 'sponge', 'MaxOps': 4, 'Lens': {0, 7, rate - 1, rate, rate + 1, 2 * rate + 1},
+                        'Record': True}, invariants=['Emit']), name='c20hash')
+        if not hist.ok:
+            raise vlib.Undecided('Hasher histories for C20: %s %s' % (hist.violated, hist.error))
+        hjobs += [{'kind': 'history', 'case': {'id': 'h%d-%d' % (rate, i), 'class': 'sponge', 'rate': rate, 'seed': seed + i, 'hist': c['hist']}}
+                  for i, c in enumerate(tlc_cases(hist.out)) if any(h['op'] in ('SumHash', 'ComputeHash') for h in c['hist'])]
     hjobs += [{'kind': 'sweep', 'algo': a, 'maxlen': 300, 'three': 200, 'seed': seed} for a in ('SHA3_256', 'SHA3_384', 'Keccak_256')]
     hp = os.path.join(vlib.subdir('scripts'), 'c20h.ndjson')
     with open(hp, 'w') as f:
